@@ -203,7 +203,7 @@ def rule_attach(ctx: Ctx):
 
     def passes(fn):
         joint, separate = {}, {}
-        for p in ctx.paths(fn, inline=None, exc_edges="none"):
+        for p in ctx.paths(fn, inline=None, exc_edges="none", comps_for_loops=True):
             if p.kind == "raise":
                 continue
             for e in p.calls():
